@@ -1,6 +1,9 @@
 package model
 
-import "math"
+import (
+	"math"
+	"strconv"
+)
 
 var edgeInts = []int64{0, 1, -1, 2, 7, 127, -128, 255, 256, 32767, -32768, 65535, 1<<31 - 1, -(1 << 31), 1 << 32, 1<<63 - 1, -(1 << 63)}
 
@@ -35,6 +38,12 @@ type vgen struct {
 	c   *Corpus
 	o   VOpt
 	rem int
+	// scale: values of the largest budgets are sometimes big in one dimension, far beyond what the others have -
+	// one container of 1025..2100 structs (big), or one chain of nested structs 70..1500 levels deep (deep; only
+	// definitions that contain themselves can get there). Counts and depths are sizes of inputs like any other;
+	// bounds and batch sizes in the code under test (1024 is a favourite) lie in between.
+	big  bool
+	deep int
 }
 
 func (g *gen) genScalarW(t *T, maxStr int) *W {
@@ -118,6 +127,22 @@ func GenValue(c *Corpus, s *StructDef, seed uint64, o VOpt) *W {
 		o.MaxDepth = 4
 	}
 	v := &vgen{r: NewRng(Mix(seed, 0x7a1)), c: c, o: o, rem: o.Budget}
+	if s.Cluster >= 0 && o.Budget >= 1500 && NewRng(Mix(seed, 0x5ca1e)).Chance(1, 2) {
+		// definitions that contain themselves: a deep chain half of the time
+		v.deep = []int{70, 520, 1030, 1500}[NewRng(Mix(seed, 0xdee9)).Intn(4)]
+		v.o.MaxDepth = v.deep
+	} else if o.Budget >= 70000 {
+		switch NewRng(Mix(seed, 0x5ca1e)).Intn(4) {
+		case 0, 2:
+			v.big = true
+		case 1:
+			v.deep = []int{70, 520, 1030, 1500}[NewRng(Mix(seed, 0xdee9)).Intn(4)]
+			v.o.MaxDepth = v.deep
+		}
+	}
+	if v.deep == 0 && len(s.Name) > 5 && s.Name[:5] == "Chain" && NewRng(Mix(seed, 0xc4a1)).Chance(2, 3) {
+		v.deep, v.o.MaxDepth = 45, 45 // the chain of definitions is populated to its end
+	}
 	if o.Present == 0 {
 		// sparse values leave the size budget to the few fields that are present (a definition with fourteen
 		// containers otherwise never has a long one beyond its first few fields), dense ones exercise every field
@@ -129,13 +154,29 @@ func GenValue(c *Corpus, s *StructDef, seed uint64, o VOpt) *W {
 func (v *vgen) structW(s *StructDef, depth int) *W {
 	r := v.r
 	w := NewW(WStruct)
+	followed := false
+	var link *Field // deep values: the field that leads back into the definition's own cluster, if there is one
+	if v.deep > 0 && depth > 3 && s.Cluster >= 0 {
+		for _, f := range s.Fields {
+			if n := structNameIn(f.T); n != "" && f.Req != Required {
+				if d := v.c.Get(n); d != nil && d.Cluster == s.Cluster {
+					link = f
+				}
+			}
+		}
+	}
 	for _, f := range s.Fields {
 		present := f.Req == Required || float64(r.Intn(1000)) < v.o.Present*1000
 		if depth >= v.o.MaxDepth && f.Req != Required && involvesStruct(f.T) {
 			present = false
 		}
-		if v.rem <= 0 && f.Req != Required {
-			present = false
+		if v.deep > 0 && depth > 3 && f.Req != Required && involvesStruct(f.T) {
+			// a deep value is a chain, not a tree: below the first levels one nested field per struct
+			present = !followed && depth < v.o.MaxDepth && (link == nil || f == link)
+			followed = followed || present
+		}
+		if v.rem <= 0 && f.Req != Required && !(v.deep > 0 && depth > 3 && present && involvesStruct(f.T)) {
+			present = false // (the one nested field a deep chain follows is not cut by the size budget)
 		}
 		if !present {
 			continue
@@ -192,6 +233,22 @@ func (v *vgen) nearDefault(f *Field) *W {
 	return w
 }
 
+// structNameIn: the struct a type leads to (through containers; map values before keys), or "".
+func structNameIn(t *T) string {
+	switch t.K {
+	case Struct:
+		return t.S
+	case List, Set:
+		return structNameIn(t.Elem)
+	case Map:
+		if n := structNameIn(t.Elem); n != "" {
+			return n
+		}
+		return structNameIn(t.Key)
+	}
+	return ""
+}
+
 func involvesStruct(t *T) bool {
 	switch t.K {
 	case Struct:
@@ -246,6 +303,24 @@ func (v *vgen) value(t *T, depth int) *W {
 					break
 				}
 				k = nil
+				if try >= 2 && n > 300 && t.Key.K != Struct && t.Key.K != Bool && t.Key.K != I8 {
+					// a long map: do not let the few favourite key values end it early
+					k = NewW(t.Key.Wire())
+					switch t.Key.K {
+					case String:
+						k.B = []byte("key-" + strconv.Itoa(i))
+					case Double:
+						k.I = int64(math.Float64bits(float64(i) + 0.25))
+					case I16:
+						k.I = int64(int16(i))
+					default:
+						k.I = int64(i)*7919 + 13
+					}
+					if !seen[string(k.Append(nil))] {
+						break
+					}
+					k = nil
+				}
 			}
 			if k == nil {
 				break
@@ -260,6 +335,18 @@ func (v *vgen) value(t *T, depth int) *W {
 }
 
 func (v *vgen) contLen(elem *T, depth int) int {
+	if v.deep > 0 && depth > 3 {
+		if involvesStruct(elem) {
+			return 1
+		}
+		return v.r.Intn(3)
+	}
+	if v.big && depth <= 2 && involvesStruct(elem) && v.rem > 40000 {
+		v.big = false // one such container per value
+		n := 1025 + v.r.Intn(1076)
+		v.rem -= 30000
+		return n
+	}
 	n := contLens[v.r.Intn(len(contLens))]
 	if v.rem > 40000 && elem.Scalar() && elem.K != Bool && elem.K != I8 && v.r.Chance(1, 3) {
 		n = []int{3000, 6000, 12000}[v.r.Intn(3)] // long scalar containers: decode time must stay proportional
